@@ -66,7 +66,13 @@ RULE = ("hierarchies = every C3-valid base assignment over <=4 classes in which 
         "attempt attrs refuses after looking at the body (cache_hash without hashing / frozen with on_setattr"
         " / non-bool hash / cache_hash with init=False) then the valid one on the same class object, a "
         "slotted build of the same plain class first, body objects (attr.ib()s, these= dict) already used by "
-        "another class; background: slots, field() vs attr.ib, "
+        "another class; who writes the initializer, on every class of the hierarchy (harness-only: attrs / "
+        "class-level init=False / a hand-written __init__ respected by define or auto_detect=True -- the parameter "
+        "order is then read from the class's own __attrs_init__, __match_args__ as visible on the class, so a stale "
+        "inherited tuple shows); ANOTHER attrs class created while the class body is executing (harness-only: a "
+        "nested attr.s / define class statement or a call to a helper building an attr.s / define / make_class / "
+        "auto_attribs class, placed between two statements of the body; every build starts after 8 earlier "
+        "attr.ib()s so the global creation counter is never at zero); background: slots, field() vs attr.ib, "
         "repr/eq on/off.  non-trivial = the class under test "
         "has an inherited field, a transformer or twins; distinct = distinct JSON case")
 ASSUMPTIONS = [
@@ -75,6 +81,7 @@ ASSUMPTIONS = [
     "the user's field_transformer is an input: the model applies the same list function the harness installs",
     "Attribute immutability and metadata/validator/these isolation are observed on the real objects (constant in the model)",
     "the model is a function of the class body and decorator arguments: histories of the class object (refused earlier decoration, slotted build first, shared body objects, a decorator object already applied to another class), how a transformer builds the Attributes it returns, and the order in which the classes of the hierarchy were introspected before the class under test are harness-only variation",
+    "who writes the initializer (init=False / own __init__) and other attrs classes created in the middle of a class body are harness-only variation: the model's fields / __match_args__ / parameter order do not depend on them",
     "the defining class of a survivor is observed through a metadata tag / marker annotation type placed by the harness",
     "the MRO collector reads each class's own __attrs_attrs__ (post-K07a repair); the legacy collector's and has()'s getattr lookup is modelled as 'first class of base's MRO that has its own tuple'",
 ]
@@ -143,7 +150,9 @@ def _views(case, built, leaf):
     obs["has"] = [bool(attr.has(c)) for c in built["classes"]]
     obs["matchArgs"] = list(getattr(leaf, "__match_args__", ("<absent>",)))
     try:
-        ps = list(inspect.signature(leaf.__init__).parameters.values())[1:]
+        # the initializer attrs wrote for THIS class: __init__, or __attrs_init__ when the class brings its own
+        # (init=False / hand-written __init__ respected by auto_detect)
+        ps = list(inspect.signature(leaf.__dict__.get("__attrs_init__") or leaf.__init__).parameters.values())[1:]
         obs["initParams"] = [[p.name, p.kind is inspect.Parameter.KEYWORD_ONLY] for p in ps]
     except (TypeError, ValueError):
         obs["initParams"] = [["<no signature>", False]]
@@ -660,8 +669,23 @@ def base_cfg(rng, shape_bases, rich):
                         "osa": rng.choice(["none", "none", "list", "tuple"]),
                         "these": rng.choice(["dict", "odict", "tuple", "proxy", "userdict", "chainmap", "mapping"])}
             pc["explicit_auto_false"] = rng.random() < 0.2
+        extra_dims(rng, pc, 0.3)
         per.append(pc)
     return {"bases": shape_bases, "per": per}
+
+
+INTERLEAVE_HOW = ["nested", "nested", "nested_define", "call_attrs", "call_attrs", "call_define", "call_make_class",
+                  "call_auto"]
+
+
+def extra_dims(rng, pc, p):
+    """harness-only dimensions every class can carry: who writes the initializer; another attrs class created in
+    the middle of the class body"""
+    if rng.random() < p:
+        pc["init_mode"] = rng.choice(["false", "own"])
+    if rng.random() < p:
+        pc["interleave"] = {"pos": rng.choice([1, 2, 2, 2, 3]), "how": rng.choice(INTERLEAVE_HOW)}
+    return pc
 
 
 def mk_case(classes, cfg, abs_=None, twins=None, probes=None):
@@ -857,7 +881,8 @@ def gen_cases(tier, rng):
             for k in range(n):
                 kind = rng.choice(KINDS[:3] if k == n - 1 else KINDS)
                 classes.append(simple_cls(kind, mros[k], k, rng.choice(ordered_subsets(POOL) if n == 3 else decl_small)))
-            yield mk_case(classes, {"bases": bases, "per": [{"lean": True, "slots": False}] * n})
+            yield mk_case(classes, {"bases": bases, "per": [extra_dims(rng, {"lean": True, "slots": False}, 0.35)
+                                                            for _ in range(n)]})
     else:
         import time
         t_end = time.time() + THOROUGH_GEN_S
@@ -897,8 +922,27 @@ def reuse_seeds():
                     yield mk_case(classes, {"bases": [[], [0]] if with_base else [[]], "per": per})
 
 
+def dim_seeds():
+    """own initializer x inheritance (own extra field / shadowing an inherited one); another attrs class created in
+    the middle of a counter-collected class body"""
+    for leaf_kind in ("legacy", "mro", "define"):
+        for mode in ("false", "own"):
+            for names in (["_z"], ["x"], ["x", "_z"], []):
+                cl = [simple_cls("mro", [0], 0, ["x", "y"]), simple_cls(leaf_kind, [1, 0], 1, names)]
+                yield mk_case(cl, {"bases": [[], [0]], "per": [{"lean": True}, {"lean": True, "init_mode": mode}]})
+            yield mk_case([simple_cls(leaf_kind, [0], 0, ["y", "x"])],
+                          {"bases": [[]], "per": [{"lean": True, "init_mode": mode}]})
+        for how in sorted(set(INTERLEAVE_HOW)):
+            for pos in (1, 2):
+                il = {"lean": True, "interleave": {"pos": pos, "how": how}}
+                yield mk_case([simple_cls(leaf_kind, [0], 0, ["x", "y", "_z"])], {"bases": [[]], "per": [il]})
+                cl = [simple_cls("mro", [0], 0, ["_z", "x"]), simple_cls(leaf_kind, [1, 0], 1, ["y", "x", "_z"])]
+                yield mk_case(cl, {"bases": [[], [0]], "per": [dict(il), dict(il)]})
+
+
 def seeds():
     yield from reuse_seeds()
+    yield from dim_seeds()
     # K7 (#428): legacy collection under a diamond
     for leaf_kind in ("legacy", "mro", "define"):
         bases = [[], [0], [0], [1, 2]]
@@ -949,6 +993,9 @@ def dist(case, obs):
         "tuple_method_field": any(f["name"] in ("count", "index") for f in o.get("fields", [])),
         "renamed": bool(info.get("names")),
         "history_leaf": case["cfg"]["per"][-1].get("history", "none"),
+        "init_mode_leaf": case["cfg"]["per"][-1].get("init_mode", "attrs"),
+        "init_mode_base": any(pc.get("init_mode") for pc in case["cfg"]["per"][:-1]),
+        "interleave_leaf": (case["cfg"]["per"][-1].get("interleave") or {}).get("how", "none"),
         "md_kind_leaf": case["cfg"]["per"][-1].get("ck", {}).get("md", "dict"),
     }
 
@@ -985,8 +1032,16 @@ def shrink(case):
             yield dict(case, twins=case["twins"][:j] + case["twins"][j + 1:])
     rich = [pc for pc in case["cfg"]["per"] if pc != {"lean": True}]
     if rich:
-        yield dict(case, cfg=dict(case["cfg"], per=[{"lean": True, "field_fn": pc.get("field_fn", True)} if "via" not in pc
-                                                    else {"lean": True, "via": pc["via"]} for pc in case["cfg"]["per"]]))
+        keep = lambda pc: {k: pc[k] for k in ("init_mode", "interleave") if pc.get(k)}     # noqa: E731
+        yield dict(case, cfg=dict(case["cfg"], per=[dict({"lean": True, "field_fn": pc.get("field_fn", True)} if "via" not in pc
+                                                         else {"lean": True, "via": pc["via"]}, **keep(pc))
+                                                    for pc in case["cfg"]["per"]]))
+    for k, pc in enumerate(case["cfg"]["per"]):
+        for key in ("init_mode", "interleave"):
+            if pc.get(key):
+                per = list(case["cfg"]["per"])
+                per[k] = {a: b for a, b in pc.items() if a != key}
+                yield dict(case, cfg=dict(case["cfg"], per=per))
 
 
 def _with_cls(case, k, c):
